@@ -17,6 +17,11 @@ LEVEL = 'other'
 
 def run(ctx):
     ptn = common.import_repo()
+    target = None
+    if ctx.replay is not None:
+        # cases are regenerated deterministically from (seed, tier); only the recorded one is validated again
+        rp = ctx.replay['replay']
+        ctx.seed, ctx.tier, target = int(rp.get('seed', ctx.seed)), str(rp.get('tier', ctx.tier)), rp.get('index')
     rng = np.random.default_rng(ctx.seed * 37 + 15)
     ctx.explanation = ('Apart from routing and the regime predicate everything here is numerical. TLC model checks the regime table '
                        'of Krylov.tla and validates for every recorded call, with the exact Krylov dimension, that the clauses required '
@@ -52,7 +57,11 @@ def run(ctx):
     ctx.notes['exhausted_regime_calls'] = sum(1 for t in traces if t[0].get('m', 0) >= t[0].get('kdim', 99))
     for t in traces[::max(1, len(traces) // 6)]:
         ctx.sample(t[0])
+    offset = 0
+    if target is not None and 0 <= int(target) < len(traces):
+        offset = int(target)
+        cases, traces = [cases[offset]], [traces[offset]]
     bad = validate_chunks(ctx, 'TraceKrylov', 'tk5', traces, chunk=ctx.pick(400, 8000))
     for idx, why in sorted(bad.items())[:40]:
         clause = why[0][2] if why and len(why[0]) > 2 else 'rejected'
-        ctx.violation(f'krylov:{traces[idx][0].get("ev")}:{clause[:70]}', f'{cases[idx]}: {clause}', dict(case=cases[idx], record=traces[idx][0]))
+        ctx.violation(f'krylov:{traces[idx][0].get("ev")}:{clause[:70]}', f'{cases[idx]}: {clause}', dict(case=cases[idx], seed=ctx.seed, tier=ctx.tier, index=idx + offset, record=traces[idx][0]))
